@@ -9,6 +9,8 @@
 import Scale.Entry
 import Scale.Ghost
 import Proofs.Wrappers
+import Proofs.HookTrace
+import Proofs.HookFacts
 namespace Scale.C11
 open Scale
 
@@ -85,6 +87,50 @@ theorem decode_all_with_depth_limit_exact (L : Nat) (ty : Ty) (bs : Bytes) (v : 
     | ok v' => cases rest <;> simp
     | err => simp
     | panic => simp
+
+/-! ### The needed depth is the container nesting of the value
+
+`nesting ty v` (`Scale/HookTrace.lean`) counts heap-allocating container levels as the crate
+descends them: a `Box/Rc/Arc`, a list, a tree map or set, and an element-by-element vector cost one
+level each; vectors of primitives, strings, byte buffers and bit sequences are read in bulk and cost
+none; tuples, arrays, options and enum payloads take the maximum over their components. The
+hook-trace theorem (`Proofs/HookTrace.lean`: decoding the encoding of `v` makes exactly the hook calls
+`hookTrace ty v`, through all chunked and bulk paths) turns the abstract `needDepth` of the
+theorems above into this concrete quantity. -/
+
+/-- Decoding the encoding of a value opens exactly `nesting ty v` levels at once. -/
+theorem need_depth_is_nesting (ty : Ty) (v : Val) (hwf : wf ty v = true) (hcanon : canon ty v = true)
+    (hl : layoutOk ty = true) (rest : Bytes) :
+    needDepth (Impl.decodeP ty) (Spec.encode ty v ++ rest) = nesting ty v := by
+  rw [needDepth_eq_depthFold, traceOf_encode ty v hwf hcanon hl rest,
+    bal_hookTrace ty v hwf hl 0 0 (Nat.le_refl 0)]
+  simp
+
+/-- **Succeeds whenever the limit is at least the container nesting depth of the encoded value,
+    fails whenever the value nests through more than `L` levels** — for every type, value and
+    trailing input. -/
+theorem succeeds_iff_nesting_le (L : Nat) (ty : Ty) (v : Val) (hwf : wf ty v = true)
+    (hcanon : canon ty v = true) (hl : layoutOk ty = true) (rest : Bytes) :
+    decodeLimit L ty (Spec.encode ty v ++ rest) = (.ok (norm ty v), rest) ↔ nesting ty v ≤ L := by
+  have hd : decode ty (Spec.encode ty v ++ rest) = (.ok (norm ty v), rest) := decode_encode ty v hwf hcanon hl rest
+  rw [depth_exact L ty _ rest _ hd, need_depth_is_nesting ty v hwf hcanon hl rest]
+
+theorem deeper_than_limit_rejected (L : Nat) (ty : Ty) (v : Val) (hwf : wf ty v = true)
+    (hcanon : canon ty v = true) (hl : layoutOk ty = true) (rest : Bytes) (hdeep : nesting ty v > L) :
+    (decodeLimit L ty (Spec.encode ty v ++ rest)).1 = .err := by
+  have hd : decode ty (Spec.encode ty v ++ rest) = (.ok (norm ty v), rest) := decode_encode ty v hwf hcanon hl rest
+  exact too_deep_rejected L ty _ rest _ hd (by rw [need_depth_is_nesting ty v hwf hcanon hl rest]; exact hdeep)
+
+/-- Siblings do not accumulate: after decoding a value the depth counter is back where it was
+    (`Bal`: from any starting depth `c` the trace returns to `c`, having reached `c + nesting`). -/
+theorem depth_balanced (ty : Ty) (v : Val) (hwf : wf ty v = true) (hl : layoutOk ty = true) (c m : Nat)
+    (h : c ≤ m) : depthFold (hookTrace ty v) (c, m) = (c, max m (c + nesting ty v)) :=
+  bal_hookTrace ty v hwf hl c m h
+
+/-- Nesting is concrete: a `Vec<Box<Vec<u8>>>` value nests 2 deep, whatever its length. -/
+example : nesting (.seq .vec 8 (.box 24 (.seq .vec 1 (.prim .u8))))
+    (.seq [.seq [.nat 1, .nat 2], .seq []]) = 2 := by decide
+example : nesting (.tuple [.seq .vec 4 (.prim .u32), .str]) (.seq [.seq [.nat 1], .bytes [65]]) = 0 := by decide
 
 /-! ### Non-vacuity: `Vec<Vec<u8>>`-like nesting needs depth 1 (the inner `Vec<u8>` is read in bulk
     and costs no level); two levels of item-path vectors need 2. -/
